@@ -149,6 +149,13 @@ class Ctx:
         os.makedirs(os.path.join(ROOT, "evidence"), exist_ok=True)
         with open(os.path.join(ROOT, "evidence", self.pid + ".json"), "w") as fh:
             fh.write(json.dumps(ev, indent=1, default=_jd))
+        if self.violations:
+            import collections
+            cnt = collections.Counter(jdump({k: v for k, v in v_["ident"].items()
+                                             if k not in ("corpus", "h", "kv_prefix", "input", "x", "instance")})[:300]
+                                      for v_ in self.violations)
+            for k, n in cnt.most_common(40):
+                self.log("  %5d x %s" % (n, k))
         self.log("done: evaluations=%d traces=%d states=%d violations=%d known=%d" % (
             self.evaluations, self.traces, self.states, len(self.violations), len(self.known_hits)))
         return 1 if self.violations else 0
